@@ -102,6 +102,45 @@ def run(facts, cg):
     elif len({tuple(map(str, x)) for x in range_terms}) != 1:
         finding('R-RESUME', '-', 'sibling-range-terms', 'the two Range header constructions compute different bounds: %s' % range_terms)
 
+    # the request builder a range request keeps is the caller's request as it is: the Range header is put on a fresh clone for
+    # every attempt (reqwest's header() appends - a builder that already carries a Range header sends two, and servers honour
+    # the first), and a request is set up once: nothing but its constructor and the retry re-arm puts it back to "not sent yet"
+    RANGE_REQ = 'bitar::archive_reader::http_range_request::HttpRangeRequest'
+    rb_fields = facts.fields_by_role(RANGE_REQ).get('reqwest::async_impl::request::RequestBuilder') or []
+    n_rb = 0
+    for b in facts.bodies.values():
+        if b.generated or b.crate != 'bitar':
+            continue
+        for bi in b.live:
+            for st in b.blocks[bi]['stmts']:
+                if st['k'] != 'assign':
+                    continue
+                if st['rv']['k'] == 'agg' and st['rv'].get('adt') == RANGE_REQ:
+                    for name, o in zip(st['rv']['fields'], st['rv']['ops']):
+                        if name in rb_fields:
+                            n_rb += 1
+                            term = simplify(T.of_operand(b, o))
+                            if has_call(term, 'RequestBuilder::header') or has_call(term, 'RequestBuilder::headers'):
+                                finding('R-RESUME', b.q, 'builder-not-pristine', 'the request builder kept by a range request already carries a header set at %s: the Range header '
+                                        'of every later attempt is appended to it, a resumed request carries two' % st['loc'])
+                elif st['pl']['p'] and st['pl']['p'][-1]['k'] == 'field' and st['pl']['p'][-1].get('n') in rb_fields and st['pl']['p'][-1].get('adt') == RANGE_REQ:
+                    finding('R-RESUME', b.q, 'builder-overwritten', 'the request builder kept by a range request is replaced at %s: headers accumulate from attempt to attempt' % st['loc'])
+    if n_rb < 1:
+        finding('R-RESUME', '-', 'floor-builder', 'the construction of HttpRangeRequest was not found (cannot decide)')
+    # who may put a request back to its first state: bodies that also re-arm it after a delay (the retry path)
+    for b in facts.bodies.values():
+        if b.generated or b.crate != 'bitar':
+            continue
+        rearms = any('q' in t['callee'] and (callee_q(t) == SLEEP or (t['callee']['q'] == 'core::future::future::Future::poll' and t['args'] and t['args'][0]['k'] in ('copy', 'move')
+                                                                   and 'Sleep' in str(b.lty(t['args'][0]['pl']['l']).get('s')))) for _, t in b.calls())
+        for bi in b.live:
+            for st in b.blocks[bi]['stmts']:
+                if st['k'] == 'assign' and st['pl']['p'] and st['pl']['p'][-1]['k'] == 'field' and st['pl']['p'][-1].get('adt') == RANGE_REQ:
+                    term = simplify(T.of_rvalue(b, st['rv'], 0))
+                    if isinstance(term, tuple) and term[0] == 'agg' and term[1].endswith('RequestState') and not term[3] and not rearms:
+                        finding('R-RESUME', b.q, 'reinitialised', 'a range request is put back to its first state at %s outside its constructor and its retry path: what belongs to '
+                                'one request (the retry budget it has left, the bytes it has delivered) is carried into the next' % st['loc'])
+
     # ---------------------------------------------------------------- R-EXACTLEN: read_at hands back no more than it was asked for
     # try_init slices the header it gets by offsets computed from `size`; a reader that returns a longer buffer shifts
     # nothing there, but every consumer that trusts `len() == size` (chunk splitting, header layout) is off.
@@ -418,14 +457,15 @@ def run(facts, cg):
     for b in facts.bodies.values():
         if not b.id.startswith('bitar::archive_reader::http_reader::') or b.generated or b.raw['kind'] == 'Closure':
             continue
-        wins = [(bi, t) for bi, t in b.calls() if 'q' in t['callee'] and callee_q(t).endswith('::windows')]
+        wins = [(bi, t) for bi, t in b.calls() if 'q' in t['callee'] and (callee_q(t).endswith('::windows') or 'adjacent' in callee_q(t).split('::')[-1])]
         if not wins:
             continue
         for bi, t in b.calls():
             if 'q' not in t['callee'] or callee_q(t).split('::')[-1] not in LIMITERS or not t['args']:
                 continue
             recv = simplify(T.of_operand(b, t['args'][0]))
-            if has_call(recv, '::windows') or (callee_q(t).split('::')[-1] in ('min', 'clamp') and any(has_call(simplify(T.of_operand(b, a)), '::count') for a in t['args'])):
+            if has_call(recv, '::windows') or (callee_q(t).split('::')[-1] in ('min', 'clamp') and
+                                                any(has_call(simplify(T.of_operand(b, a)), '::count') or _calls_like(simplify(T.of_operand(b, a)), 'adjacent') for a in t['args'])):
                 finding('R-RUNS', b.q, 'run-cut:' + callee_q(t).split('::')[-1], 'the walk over adjacent chunks is limited by %s at %s: a run longer than that is fetched with '
                         'several requests' % (callee_q(t).split('::')[-1], t['loc']))
     # one request per run: the request in flight is given up only when the count of chunks it still covers reaches zero, and a
@@ -488,6 +528,47 @@ def run(facts, cg):
                     if not guarded:
                         finding('R-RUNS', b.q, 'request-dropped-early', 'the range request in flight is given up at %s without the count of chunks it still covers having '
                                 'reached zero: adjacent chunks are no longer fetched with one request' % st['loc'])
+    # the receive buffer belongs to one request: it is emptied when a new request is built (what a server sent beyond the range it
+    # was asked for must not be taken for the start of the next response) and every chunk stream starts with a fresh one
+    CHUNK_READER = 'bitar::archive_reader::http_reader::ChunkReader'
+    n_buf = 0
+    for b in facts.bodies.values():
+        if not b.id.startswith('bitar::archive_reader::http_reader::') or b.generated:
+            continue
+        news = [(bi, t) for bi, t in b.calls() if 'q' in t['callee'] and callee_q(t).endswith('HttpRangeRequest::new')]
+        par_ = facts.original.get(b.raw.get('parent') or '')
+        if news and not (par_ is not None and par_.q.endswith('ArchiveReader>::read_at')) and ' as bitar::archive_reader::ArchiveReader>::read_at' not in b.q:
+            dom = b.dominators()
+            clears = [bi for bi, t in b.calls() if 'q' in t['callee'] and callee_q(t).startswith('bytes::bytes_mut::BytesMut::') and
+                      callee_q(t).split('::')[-1] in ('clear', 'split') or ('q' in t['callee'] and callee_q(t) == 'bytes::bytes_mut::BytesMut::truncate' and
+                                                                     len(t['args']) > 1 and t['args'][1].get('int') == 0)]
+            for nbi, nt in news:
+                n_buf += 1
+                ok = any(cb in dom.get(nbi, ()) or cb == nbi for cb in clears) or any(nbi in dom.get(cb, ()) and _all_paths_hit(b, nbi, {cb}) for cb in clears)
+                instances.append({'rule': 'R-RUNS(buffer)', 'function': b.q, 'request_built_at': nt['loc'], 'receive_buffer_emptied': ok})
+                if not ok:
+                    finding('R-RUNS', b.q, 'buffer-not-emptied', 'a new range request is built at %s without emptying the receive buffer: bytes a server sent beyond the '
+                            'previous range are taken for the start of the new response, every chunk after them is shifted' % nt['loc'])
+        for bi in b.live:
+            for st in b.blocks[bi]['stmts']:
+                if st['k'] == 'assign' and st['rv']['k'] == 'agg' and st['rv'].get('adt') == CHUNK_READER:
+                    for name, o in zip(st['rv']['fields'], st['rv']['ops']):
+                        oty = b.lty(o['pl']['l']) if o['k'] in ('copy', 'move') else {}
+                        inner = oty
+                        hops = 0
+                        while inner.get('k') in ('ref', 'rawptr') and inner.get('args') and hops < 3:
+                            inner = b.ty(inner['args'][0]); hops += 1
+                        if inner.get('adt') != 'bytes::bytes_mut::BytesMut':
+                            continue
+                        n_buf += 1
+                        term = simplify(T.of_operand(b, o))
+                        fresh = hops == 0 and isinstance(term, tuple) and term[0] == 'call' and term[1].split('::')[-1] in ('new', 'with_capacity', 'default', 'zeroed')
+                        instances.append({'rule': 'R-RUNS(buffer)', 'function': b.q, 'chunk_stream_built_at': st['loc'], 'buffer_field': name, 'fresh': fresh})
+                        if not fresh:
+                            finding('R-RUNS', b.q, 'buffer-shared', 'the chunk stream built at %s does not start with a receive buffer of its own (%s): what an abandoned '
+                                    'stream left behind is handed out as the first chunks of the next one, and no request is sent for them' % (st['loc'], show(term)[:60]))
+    if n_buf < 2:
+        finding('R-RUNS', '-', 'floor-buffer', 'the receive buffer of the http chunk reader (its construction, its emptying at a new request) was not found (cannot decide)')
     if n_req < 1 or n_adj < 1:
         finding('R-RUNS', '-', 'floor', 'the construction of the range request / the adjacency predicate of the http chunk reader were not found (cannot decide)')
     return instances, findings
